@@ -372,7 +372,7 @@ func runGlobRoute(args []string) error {
 		{[]string{"/app/public/**"}, []string{"http://wonderwall/app", "http://wonderwall/app/sub"}},
 		{nil, nil},
 	}
-	methods := []string{"GET", "POST", "HEAD"}
+	methods := []string{"GET", "POST", "HEAD", "OPTIONS", "DELETE"}
 	combos := []navCombo{
 		{"navigate", "document", []string{"text/html"}},
 		{"cors", "empty", []string{"application/json"}},
@@ -464,6 +464,15 @@ func runGlobRoute(args []string) error {
 						}
 						if referer != "" {
 							req.Header.Set("Referer", referer)
+						}
+						// ambient headers any client may send (CORS preflight shape, XHR marker, credentials wonderwall does not
+						// look at): whether a request is forwarded must not depend on them
+						if (ti+mi+ci)%2 == 0 {
+							req.Header.Set("Origin", "https://other.example.net")
+							req.Header.Set("Access-Control-Request-Method", "POST")
+							req.Header.Set("Access-Control-Request-Headers", "authorization")
+							req.Header.Set("X-Requested-With", "XMLHttpRequest")
+							req.Header.Set("Authorization", "Bearer client-supplied")
 						}
 						urlString := req.URL.String()
 						decoded := req.URL.Path
